@@ -251,9 +251,57 @@ func (c *check) runWorker(args []string, outFile string, timeout time.Duration, 
 		if ee, ok := werr.(*exec.ExitError); ok {
 			code = ee.ExitCode()
 		}
-		return res, &crash{Seed: inflight, Output: tail(stderr.String(), 12000), Exit: code}, nil
+		return res, &crash{Seed: inflight, Output: headTail(stderr.String(), 6000, 9000), Exit: code}, nil
 	}
 	return res, nil, nil
+}
+
+func headTail(s string, h, t int) string {
+	if len(s) <= h+t {
+		return s
+	}
+	return s[:h] + "\n…\n" + s[len(s)-t:]
+}
+
+// systemPanic recognises a Go panic raised on a goroutine that runs none of the
+// simulator's code: the program under test crashed its own process (every
+// property presupposes a peer that stays up). A panic with a frame of /verif on
+// the panicking goroutine, a test timeout or a runtime deadlock report is
+// machinery trouble instead.
+func systemPanic(out string) (string, bool) {
+	lines := strings.Split(out, "\n")
+	for i, l := range lines {
+		if !strings.HasPrefix(l, "panic: ") || strings.HasPrefix(l, "panic: test timed out") {
+			continue
+		}
+		msg := strings.TrimSpace(l)
+		if len(msg) > 120 {
+			msg = msg[:120]
+		}
+		j := i + 1
+		for j < len(lines) && !strings.HasPrefix(lines[j], "goroutine ") {
+			j++
+		}
+		first := ""
+		for j++; j < len(lines) && strings.TrimSpace(lines[j]) != ""; j++ {
+			t := strings.TrimSpace(lines[j])
+			if strings.Contains(t, "verif/") || strings.Contains(t, "testing/synctest") && first == "" {
+				return "", false
+			}
+			if first == "" && !strings.HasPrefix(t, "/") && !strings.HasPrefix(t, "panic(") && !strings.HasPrefix(t, "runtime.") {
+				if k := strings.Index(t, "("); k > 0 {
+					first = t[:k]
+				} else {
+					first = t
+				}
+			}
+		}
+		if first == "" {
+			return "", false
+		}
+		return msg + ";" + first, true
+	}
+	return "", false
 }
 
 func tail(s string, n int) string {
@@ -534,6 +582,21 @@ func (c *check) runPart(a *agg, share float64, base uint64) partOutcome {
 				continue
 			}
 			crashViol = append(crashViol, cr)
+		} else if sig, ok := systemPanic(cr.Output); ok && cr.Exit != -1 {
+			// the peer process itself died on a goroutine of the code under test
+			if kf, ok := matchKnown(known, c.spec.ID+"/crash", sig); ok {
+				knownHit = appendKnown(knownHit, kf)
+				continue
+			}
+			dup := false
+			for _, x := range crashViol {
+				if xs, _ := systemPanic(x.Output); xs == sig {
+					dup = true
+				}
+			}
+			if !dup {
+				crashViol = append(crashViol, cr)
+			}
 		} else {
 			crashTrouble = append(crashTrouble, cr)
 		}
@@ -641,6 +704,9 @@ func firstDetail(r *simplan.Result, clause string) string {
 }
 
 func crashSignature(out string) string {
+	if sig, ok := systemPanic(out); ok && !strings.Contains(out, "DATA RACE") {
+		return sig
+	}
 	// the first function names of a race report / panic, normalised
 	lines := strings.Split(out, "\n")
 	var sig []string
